@@ -416,6 +416,73 @@ func c08ScriptListLimits(r *run.Run) {
 		})
 }
 
+// c08HeaderOrders: tables in which one, two or all three of script list, feature list and lookup list are
+// large.  The header holds three 16-bit offsets, so a table is representable if some order of the lists lets
+// every list start within the first 64 KiB (the reader accepts every order).
+func c08HeaderOrders(r *run.Run) {
+	_, langs := gtab.VerifTagTables()
+	var ll []string
+	for k := range langs {
+		ll = append(ll, k)
+	}
+	sort.Strings(ll)
+	mk := func(nLang, nFeat, nLookup int) *gtab.Info {
+		info := &gtab.Info{ScriptList: gtab.ScriptListInfo{}}
+		for i := 0; i < nLookup; i++ {
+			info.LookupList = append(info.LookupList, gen.MakeLookup(1, gen.Flags[0], []gtab.Subtable{&gtab.Gsub1_1{Cov: coverage.Set{glyph.ID(1 + i%50): true}, Delta: glyph.ID(1 + i%7)}}))
+		}
+		for i := 0; i < max(nFeat, 64); i++ {
+			info.FeatureList = append(info.FeatureList, &gtab.Feature{Tag: fmt.Sprintf("f%03d", i%1000), Lookups: []gtab.LookupIndex{gtab.LookupIndex(i % nLookup)}})
+		}
+		var opt []gtab.FeatureIndex
+		for i := 0; i < 64; i++ {
+			opt = append(opt, gtab.FeatureIndex(i))
+		}
+		for li := -1; li < nLang; li++ {
+			lang := ""
+			if li >= 0 {
+				lang = ll[li]
+			}
+			if tag, err := gtab.VerifOtfToBCP47("latn", lang); err == nil {
+				info.ScriptList[tag] = &gtab.Features{Required: 0xFFFF, Optional: opt}
+			}
+		}
+		return info
+	}
+	langCounts, featCounts, lookupCounts := []int{0, 180, 310}, []int{64, 2100, 3600}, []int{1, 1150, 1950}
+	size := func(a, b, c int) int {
+		n := -1
+		guard(func() { n = len(mk(langCounts[a], featCounts[b], lookupCounts[c]).Encode()) })
+		return n
+	}
+	r.Explore(explore.Config{Name: "C08.header-orders"},
+		"tables whose script list, feature list and lookup list each have about 1, 25 or 43 kB (27 combinations): if some order of the three lists lets each of them start within the first 64 KiB the table comes back intact, otherwise the encoder refuses loudly",
+		func(c *explore.Ctx) {
+			a, b, cc := c.Choose(3, "script list"), c.Choose(3, "feature list"), c.Choose(3, "lookup list")
+			base := size(0, 0, 0)
+			sa, sb, sc := size(a, 0, 0)-base, size(0, b, 0)-base, size(0, 0, cc)-base
+			s0, f0, l0 := 0, 0, 0
+			{
+				// the sizes of the three small lists: from the encoded small table (header offsets)
+				enc := mk(langCounts[0], featCounts[0], lookupCounts[0]).Encode()
+				so, fo, lo := int(enc[4])<<8|int(enc[5]), int(enc[6])<<8|int(enc[7]), int(enc[8])<<8|int(enc[9])
+				s0, f0, l0 = fo-so, lo-fo, len(enc)-lo
+			}
+			S, F, L := s0+sa, f0+sb, l0+sc
+			desc := fmt.Sprintf("script list %d bytes, feature list %d bytes, lookup list %d bytes", S, F, L)
+			c.Sample(func() any { return desc })
+			c.Nontrivial()
+			representable := 10+S+F+L-max(S, F, L) <= 0xFFFF && 10+S <= 0xFFFF
+			info := mk(langCounts[a], featCounts[b], lookupCounts[cc])
+			refused := guard(func() { info.Encode() }) != ""
+			if refused && representable {
+				c.Fail("C08.roundtrip", "header orders: refused", "the encoder refuses a table that fits when its largest list is written last; %s", desc)
+				return
+			}
+			c08RoundTripOnce(c, "header orders", info, gtab.TypeGsub, desc)
+		})
+}
+
 func c08Info(tp gtab.Type, ll gtab.LookupList) *gtab.Info {
 	var idx []gtab.LookupIndex
 	for i := range ll {
@@ -1349,6 +1416,7 @@ func init() {
 		c08FeatureListLimits(r)
 		tagTablesPart(r, "C08.script-tags", "C08.roundtrip")
 		c08ScriptListLimits(r)
+		c08HeaderOrders(r)
 		c08Sizes(r)
 	})
 }
